@@ -130,10 +130,26 @@ impl ParserState {
             if let Some(arr) = self.context.pop() {
                 if let Some(val_list) = self.context.last_mut() {
                     let mut map: BTreeMap<String, IppValue> = BTreeMap::new();
-                    for idx in (0..arr.len()).step_by(2) {
-                        if let (Some(IppValue::MemberAttrName(k)), Some(v)) = (arr.get(idx), arr.get(idx + 1)) {
-                            map.insert(k.to_string(), v.clone());
+                    // each member name is followed by one or more values of that member
+                    let mut member: Option<(String, Vec<IppValue>)> = None;
+                    for item in arr {
+                        match item {
+                            IppValue::MemberAttrName(name) => {
+                                if let Some((k, values)) = member.replace((name, vec![])) {
+                                    map.insert(k, list_or_value(values));
+                                }
+                            }
+                            value => match member {
+                                Some((_, ref mut values)) => values.push(value),
+                                None => {
+                                    error!("Collection member value without a member name");
+                                    return Err(IppParseError::InvalidCollection);
+                                }
+                            },
                         }
+                    }
+                    if let Some((k, values)) = member {
+                        map.insert(k, list_or_value(values));
                     }
                     val_list.push(IppValue::Collection(map));
                 }
